@@ -1315,4 +1315,48 @@ Proof.
   cbv zeta. destruct (run_R _ _ evs (R_init d paus stag rec)) as [[(B1 & B2 & B3 & B4 & B5 & B6) _] _]. auto.
 Qed.
 
+(* the safety flag is monotone: once violated it stays violated; so it holds at every point of the trace *)
+Lemma mok_mono_item m t : mok (mon_item m t) = true -> mok m = true.
+Proof.
+  destruct t as [e|o]; cbn.
+  - destruct e; cbn; auto.
+    + destruct a; cbn; auto; [destruct (rstate_eqb (mstate m) Idle) | destruct (rstate_eqb (mstate m) Paused)]; cbn; auto.
+    + destruct defer; cbn; auto. destruct (allowed (mstate m) Pausing); cbn; auto.
+  - destruct o; cbn; auto.
+    + destruct (mpend m); cbn; auto.
+    + intros H. apply andb_true_iff in H. tauto.
+    + destruct w; cbn; auto. destruct (mpend m); cbn; auto.
+Qed.
+Lemma mok_mono m l : mok (mon_run m l) = true -> mok m = true.
+Proof.
+  revert m; induction l as [|t l IH]; intros m H; cbn in *; [exact H|]. apply mok_mono_item with (t := t). apply IH. exact H.
+Qed.
+
+Theorem spec_ok_at_every_point d paus stag rec evs l1 l2 :
+  trace (init P D d paus stag rec) evs = l1 ++ l2 -> mok (mon_run mon0 l1) = true.
+Proof.
+  intros E. pose proof (run_follows_spec d paus stag rec evs) as H. cbv zeta in H. destruct H as (_ & _ & _ & _ & H).
+  rewrite E, mon_run_app in H. eapply mok_mono; exact H.
+Qed.
+
+(* C10: whenever the engine becomes Paused, a checkpoint is in effect according to the specification *)
+Corollary paused_needs_checkpoint d paus stag rec evs l1 a l2 :
+  trace (init P D d paus stag rec) evs = l1 ++ TObs (OState a Paused) :: l2 -> mcache (mon_run mon0 l1) <> None.
+Proof.
+  intros E. pose proof (spec_ok_at_every_point d paus stag rec evs (l1 ++ [TObs (OState a Paused)]) l2) as H.
+  rewrite <- app_assoc in H. specialize (H E). rewrite mon_run_app in H. cbn in H.
+  apply andb_true_iff in H. destruct H as [_ H]. destruct (mcache (mon_run mon0 l1)); [discriminate | discriminate].
+Qed.
+
+(* C09: whenever the engine starts Pausing, the specification knows why: the running event is a hard pause
+   request, or the message being executed is pause(defer=False), or this task step began at the end of the
+   grace sleep of a checkpoint taken with a deferred pause pending *)
+Corollary pausing_needs_cause d paus stag rec evs l1 a l2 :
+  trace (init P D d paus stag rec) evs = l1 ++ TObs (OState a Pausing) :: l2 -> mcause (mon_run mon0 l1) = true.
+Proof.
+  intros E. pose proof (spec_ok_at_every_point d paus stag rec evs (l1 ++ [TObs (OState a Pausing)]) l2) as H.
+  rewrite <- app_assoc in H. specialize (H E). rewrite mon_run_app in H. cbn in H.
+  apply andb_true_iff in H. destruct H as [_ H]. exact H.
+Qed.
+
 End Proofs.
